@@ -40,6 +40,7 @@ func (c *cmpCase) run() (obs string, block []byte) {
 	src := append([]byte(nil), c.src...)
 	var n int
 	var err error
+	concurrentDiffers := ""
 	func() {
 		defer func() {
 			if r := recover(); r != nil {
@@ -103,6 +104,7 @@ func (c *cmpCase) run() (obs string, block []byte) {
 				}(g)
 			}
 			wg.Wait()
+			concurrentDiffers = concurrentCalls(c, func(s, d []byte) (int, error) { return lz4.CompressBlock(s, d, nil) })
 			n, err = lz4.CompressBlock(src, dst, nil)
 		case c.ep == 0:
 			history(func(s, d []byte) { lz4.CompressBlockHC(s, d, lz4.CompressionLevel(c.depth), nil, nil) })
@@ -126,6 +128,9 @@ func (c *cmpCase) run() (obs string, block []byte) {
 				}(g)
 			}
 			wg.Wait()
+			concurrentDiffers = concurrentCalls(c, func(s, d []byte) (int, error) {
+				return lz4.CompressBlockHC(s, d, lz4.CompressionLevel(c.depth), nil, nil)
+			})
 			n, err = lz4.CompressBlockHC(src, dst, lz4.CompressionLevel(c.depth), nil, nil)
 		}
 	}()
@@ -166,6 +171,9 @@ func (c *cmpCase) run() (obs string, block []byte) {
 	block = append([]byte(nil), dst[:n]...)
 	// determinism (C14): a fresh object, same source, same destination size, gives the same bytes
 	det := "ok"
+	if concurrentDiffers != "" {
+		det = concurrentDiffers
+	}
 	if c.ep != 1 {
 		d2 := make([]byte, c.dstlen)
 		var n2 int
@@ -218,6 +226,50 @@ func replayCmp(kind string, f map[string]string) (string, bool) {
 // the stride is 1, so the position is looked up); and a history that leaves exactly the first
 // position's low 16 bits in the token's slot.  A compressor that consults a slot which the current
 // call has not written finds a match there that a fresh compressor cannot find.
+// concurrentCalls runs the same pooled call from four goroutines at once, each on its own copy of
+// the source and its own destination, next to four goroutines compressing other data: the package
+// functions are documented as safe for concurrent use, so every call must return what a call alone
+// returns (the results are compared with each other here and with a fresh object by the caller)
+func concurrentCalls(c *cmpCase, f func(s, d []byte) (int, error)) string {
+	type res struct {
+		n   int
+		err bool
+		b   []byte
+	}
+	out := make([]res, 4)
+	var wg sync.WaitGroup
+	for g := 0; g < 8; g++ {
+		wg.Add(1)
+		go func(g int) {
+			defer wg.Done()
+			defer func() { recover() }()
+			if g >= 4 {
+				r := newRng(uint64(g)+uint64(c.stale), "noise")
+				s := r.bytes(2000 + r.intn(60000))
+				for j := range s {
+					s[j] = byte('a' + j%(1+g))
+				}
+				f(s, make([]byte, lz4.CompressBlockBound(len(s))))
+				return
+			}
+			s := append([]byte(nil), c.src...)
+			d := make([]byte, c.dstlen)
+			n, err := f(s, d)
+			if n < 0 || n > len(d) {
+				n = 0
+			}
+			out[g] = res{n, err != nil, append([]byte(nil), d[:n]...)}
+		}(g)
+	}
+	wg.Wait()
+	for g := 1; g < 4; g++ {
+		if out[g].n != out[0].n || out[g].err != out[0].err || !bytes.Equal(out[g].b, out[0].b) {
+			return fmt.Sprintf("fail:concurrent-calls-of-the-package-function-on-the-same-input-disagree(%d-vs-%d-bytes,err=%v-vs-%v)", out[0].n, out[g].n, out[0].err, out[g].err)
+		}
+	}
+	return ""
+}
+
 func staleToken(seed int) []byte {
 	t := genData(0, seed+7777, 8)
 	return t
@@ -371,7 +423,9 @@ func compCmp(o *out, seed uint64, tier string) {
 					d = hcDepths[r.intn(len(hcDepths))]
 				}
 				bound := lz4.CompressBlockBound(n)
-				emit(&cmpCase{src: src, algo: algo, depth: d, dstlen: bound, ep: r.intn(4), hist: r.intn(3), stale: r.intn(1000)}, "small-at-bound")
+				for ep := 0; ep < 4; ep++ { // every entry point on every small length: each has its own short-input path
+					emit(&cmpCase{src: src, algo: algo, depth: d, dstlen: bound, ep: ep, hist: r.intn(3), stale: r.intn(1000)}, "small-at-bound")
+				}
 				emit(&cmpCase{src: src, algo: algo, depth: d, dstlen: r.intn(bound + 3), ep: r.intn(2), stale: r.intn(1000)}, "small-dst-sweep")
 			}
 		}
